@@ -80,6 +80,141 @@ def template(kind, settings, make):
     return path
 
 
+def impl_op(c, op):
+    name = op[0]
+    a = op[1:]
+    if name == 'set':
+        return call(c.set, a[0], val(a[1]), expire=a[2], tag=a[3])
+    if name == 'setitem':
+        return call(c.__setitem__, a[0], val(a[1]))
+    if name == 'set_read':
+        return call(c.set, a[0], io.BytesIO(val(a[1])), expire=a[2],
+                    tag=a[3], read=True)
+    if name == 'add':
+        return call(c.add, a[0], val(a[1]), expire=a[2], tag=a[3])
+    if name == 'get':
+        return call(c.get, a[0], **flags(a[1]))
+    if name == 'getitem':
+        return call(c.__getitem__, a[0])
+    if name == 'read':
+        return call(c.read, a[0])
+    if name == 'contains':
+        return call(c.__contains__, a[0])
+    if name == 'touch':
+        return call(c.touch, a[0], expire=a[1])
+    if name == 'incr':
+        return call(c.incr, a[0], a[1], a[2])
+    if name == 'decr':
+        return call(c.decr, a[0], a[1], a[2])
+    if name == 'pop':
+        kw = flags(a[1])
+        kw.pop('read', None)
+        return call(c.pop, a[0], **kw)
+    if name == 'delete':
+        return call(c.delete, a[0])
+    if name == 'delitem':
+        def delitem():
+            del c[a[0]]
+        return call(delitem)
+    if name == 'clear':
+        return call(c.clear)
+    if name == 'evict':
+        return call(c.evict, a[0])
+    if name == 'expire':
+        return call(c.expire)
+    if name == 'cull':
+        return call(c.cull)
+    if name == 'len':
+        return call(len, c)
+    if name == 'keys':
+        return call(lambda: list(c))
+    if name == 'rkeys':
+        return call(lambda: list(reversed(c)))
+    if name == 'iterkeys':
+        return call(lambda: list(c.iterkeys(reverse=a[0])))
+    if name == 'peekitem':
+        kw = flags(a[1])
+        kw.pop('read', None)
+        kw.pop('default', None)
+        return call(c.peekitem, a[0], **kw)
+    if name == 'stats':
+        return call(c.stats, enable=a[0], reset=a[1])
+    if name == 'push':
+        return call(c.push, val(a[0]), prefix=a[1], side=a[2],
+                    expire=a[3], tag=a[4])
+    if name in ('pull', 'peek'):
+        kw = flags(a[2])
+        kw.pop('read', None)
+        if 'default' in kw:
+            kw['default'] = (None, SENTINEL)
+        return call(getattr(c, name), prefix=a[0], side=a[1], **kw)
+    raise ValueError(op)
+
+def model_op(s, op):
+    name = op[0]
+    a = op[1:]
+    if name in ('set', 'setitem'):
+        r = s.set(a[0], val(a[1]), *(a[2:4] if name == 'set' else ()))
+        return None if name == 'setitem' else r
+    if name == 'set_read':
+        return s.set(a[0], val(a[1]), a[2], a[3], handle=True)
+    if name == 'add':
+        return s.add(a[0], val(a[1]), a[2], a[3])
+    if name == 'get':
+        return s.get(a[0], **flags(a[1]))
+    if name == 'getitem':
+        return s.getitem(a[0])
+    if name == 'read':
+        return s.read(a[0])
+    if name == 'contains':
+        return s.contains(a[0])
+    if name == 'touch':
+        return s.touch(a[0], a[1])
+    if name == 'incr':
+        return s.incr(a[0], a[1], a[2])
+    if name == 'decr':
+        return s.decr(a[0], a[1], a[2])
+    if name == 'pop':
+        kw = flags(a[1])
+        kw.pop('read', None)
+        return s.pop(a[0], **kw)
+    if name == 'delete':
+        return s.delete(a[0])
+    if name == 'delitem':
+        return s.delitem(a[0])
+    if name == 'clear':
+        return s.clear()
+    if name == 'evict':
+        return s.evict(a[0])
+    if name in ('expire', 'cull'):
+        return None   # relational, see check_removal
+    if name == 'len':
+        return s.length()
+    if name == 'keys':
+        return s.keys()
+    if name == 'rkeys':
+        return s.rkeys()
+    if name == 'iterkeys':
+        return s.sorted_keys(reverse=a[0])
+    if name == 'peekitem':
+        kw = flags(a[1])
+        kw.pop('read', None)
+        kw.pop('default', None)
+        return s.peekitem(a[0], **kw)
+    if name == 'stats':
+        return s.stats(a[0], a[1])
+    if name == 'push':
+        return s.push(val(a[0]), a[1], a[2], a[3], a[4])
+    if name in ('pull', 'peek'):
+        kw = flags(a[2])
+        kw.pop('read', None)
+        if 'default' in kw:
+            kw['default'] = (None, SENTINEL)
+        return getattr(s, name)(a[0], side=a[1], **kw)
+    raise ValueError(op)
+
+
+
 class World:
     """Base: directory management + violation packaging."""
 
@@ -148,141 +283,11 @@ class CacheWorld(World):
             pass
         super().close()
 
-    # -- one operation on both sides ---------------------------------------
     def impl(self, op):
-        c = self.cache
-        name = op[0]
-        a = op[1:]
-        if name == 'set':
-            return call(c.set, a[0], val(a[1]), expire=a[2], tag=a[3])
-        if name == 'setitem':
-            return call(c.__setitem__, a[0], val(a[1]))
-        if name == 'set_read':
-            return call(c.set, a[0], io.BytesIO(val(a[1])), expire=a[2],
-                        tag=a[3], read=True)
-        if name == 'add':
-            return call(c.add, a[0], val(a[1]), expire=a[2], tag=a[3])
-        if name == 'get':
-            return call(c.get, a[0], **flags(a[1]))
-        if name == 'getitem':
-            return call(c.__getitem__, a[0])
-        if name == 'read':
-            return call(c.read, a[0])
-        if name == 'contains':
-            return call(c.__contains__, a[0])
-        if name == 'touch':
-            return call(c.touch, a[0], expire=a[1])
-        if name == 'incr':
-            return call(c.incr, a[0], a[1], a[2])
-        if name == 'decr':
-            return call(c.decr, a[0], a[1], a[2])
-        if name == 'pop':
-            kw = flags(a[1])
-            kw.pop('read', None)
-            return call(c.pop, a[0], **kw)
-        if name == 'delete':
-            return call(c.delete, a[0])
-        if name == 'delitem':
-            def delitem():
-                del c[a[0]]
-            return call(delitem)
-        if name == 'clear':
-            return call(c.clear)
-        if name == 'evict':
-            return call(c.evict, a[0])
-        if name == 'expire':
-            return call(c.expire)
-        if name == 'cull':
-            return call(c.cull)
-        if name == 'len':
-            return call(len, c)
-        if name == 'keys':
-            return call(lambda: list(c))
-        if name == 'rkeys':
-            return call(lambda: list(reversed(c)))
-        if name == 'iterkeys':
-            return call(lambda: list(c.iterkeys(reverse=a[0])))
-        if name == 'peekitem':
-            kw = flags(a[1])
-            kw.pop('read', None)
-            kw.pop('default', None)
-            return call(c.peekitem, a[0], **kw)
-        if name == 'stats':
-            return call(c.stats, enable=a[0], reset=a[1])
-        if name == 'push':
-            return call(c.push, val(a[0]), prefix=a[1], side=a[2],
-                        expire=a[3], tag=a[4])
-        if name in ('pull', 'peek'):
-            kw = flags(a[2])
-            kw.pop('read', None)
-            if 'default' in kw:
-                kw['default'] = (None, SENTINEL)
-            return call(getattr(c, name), prefix=a[0], side=a[1], **kw)
-        raise ValueError(op)
+        return impl_op(self.cache, op)
 
     def model(self, op):
-        s = self.spec
-        name = op[0]
-        a = op[1:]
-        if name in ('set', 'setitem'):
-            r = s.set(a[0], val(a[1]), *(a[2:4] if name == 'set' else ()))
-            return None if name == 'setitem' else r
-        if name == 'set_read':
-            return s.set(a[0], val(a[1]), a[2], a[3], handle=True)
-        if name == 'add':
-            return s.add(a[0], val(a[1]), a[2], a[3])
-        if name == 'get':
-            return s.get(a[0], **flags(a[1]))
-        if name == 'getitem':
-            return s.getitem(a[0])
-        if name == 'read':
-            return s.read(a[0])
-        if name == 'contains':
-            return s.contains(a[0])
-        if name == 'touch':
-            return s.touch(a[0], a[1])
-        if name == 'incr':
-            return s.incr(a[0], a[1], a[2])
-        if name == 'decr':
-            return s.decr(a[0], a[1], a[2])
-        if name == 'pop':
-            kw = flags(a[1])
-            kw.pop('read', None)
-            return s.pop(a[0], **kw)
-        if name == 'delete':
-            return s.delete(a[0])
-        if name == 'delitem':
-            return s.delitem(a[0])
-        if name == 'clear':
-            return s.clear()
-        if name == 'evict':
-            return s.evict(a[0])
-        if name in ('expire', 'cull'):
-            return None   # relational, see check_removal
-        if name == 'len':
-            return s.length()
-        if name == 'keys':
-            return s.keys()
-        if name == 'rkeys':
-            return s.rkeys()
-        if name == 'iterkeys':
-            return s.sorted_keys(reverse=a[0])
-        if name == 'peekitem':
-            kw = flags(a[1])
-            kw.pop('read', None)
-            kw.pop('default', None)
-            return s.peekitem(a[0], **kw)
-        if name == 'stats':
-            return s.stats(a[0], a[1])
-        if name == 'push':
-            return s.push(val(a[0]), a[1], a[2], a[3], a[4])
-        if name in ('pull', 'peek'):
-            kw = flags(a[2])
-            kw.pop('read', None)
-            if 'default' in kw:
-                kw['default'] = (None, SENTINEL)
-            return getattr(s, name)(a[0], side=a[1], **kw)
-        raise ValueError(op)
+        return model_op(self.spec, op)
 
     # -- admissibility of physically removed items ---------------------------
     def check_removal(self, op, missing, result):
